@@ -88,13 +88,20 @@ def run(program, thunk, max_paths=48, sticky=False, stubs=None):
     return explore(program, thunk, max_paths=max_paths, configure=conf)
 
 
+def grad_dim(it, modv):
+    """Dimension of a flat gradient vector of a network: concatenation of its flattened parameters."""
+    from .values import dim_mul, dim_cat
+
+    return dim_cat([dim_mul(list(q.shape)) for _, q in module_params(it, modv)])
+
+
 def stub_grad_lists(it, func, env, node):
     """Stub for methods returning one gradient vector per network (assume/guarantee split)."""
     selfv = env.get(func.params[0])
     nets = state_networks(it, selfv)
     out = []
     for n in nets:
-        t = it.new_tobj("tensor", T.sym("G_%s@%s" % (n, func.name)), ("P_" + n,), "fresh")
+        t = it.new_tobj("tensor", T.sym("G_%s@%s" % (n, func.name)), (grad_dim(it, it.get_attr(selfv, n, None)),), "fresh")
         out.append(VTens(t))
     return it.new_list(out)
 
